@@ -131,4 +131,97 @@ structure Canonical (F : FontMeta) : Prop where
   gsub : F.gsub = none →
     (!isFixedPitch F.outline.widthList && F.outline.hasBest) = false ∨ F.outline.stdLig = none
 
+
+theorem nfOutline_canonical (o : Outline)
+    (hws : ∀ w ∈ o.widthList, ∃ n, w = Dy.ofInt n ∧ isInt16 n)
+    (hnone : o.widths = none → o.numGlyphs = 0)
+    (hempty : o.kind = .glyf → o.widths ≠ some []) : nfOutline o = o := by
+  obtain ⟨kind, n, widths, heights, glyphs, eg, cm, hb, gh, gx, sl⟩ := o
+  simp only at hnone hempty
+  unfold nfOutline
+  simp only [List.length_map, List.map_map]
+  congr 1
+  cases widths with
+  | none =>
+    have := hnone rfl
+    subst this
+    simp [Outline.widthList]
+    cases kind <;> rfl
+  | some l =>
+    simp only [Outline.widthList] at hws ⊢
+    have hmap : List.map (Dy.ofInt ∘ fun w => toInt16 w.trunc) l = l := by
+      conv => rhs; rw [← List.map_id l]
+      apply List.map_congr_left
+      intro w hw
+      obtain ⟨m, rfl, hm⟩ := hws w hw
+      simp only [Function.comp, trunc_ofInt, id]
+      rw [toInt16_of_range m hm]
+    rw [hmap]
+    cases l with
+    | nil =>
+      cases kind
+      · exact absurd rfl (hempty rfl)
+      · simp
+    | cons a t => simp
+
+
+theorem heightFallback_canonical (c : Int) (o : Outline) (g : Nat)
+    (h : 0 < c ∨ heightFallback 0 o g = c) :
+    heightFallback (if c > 0 then c else 0) o g = c := by
+  by_cases hc : c > 0
+  · simp only [hc, if_true]
+    unfold heightFallback
+    have : ¬ c = 0 := by omega
+    simp [this]
+  · simp only [hc, if_false]
+    rcases h with h | h
+    · omega
+    · exact h
+
+theorem lossless (F : FontMeta) (h : Canonical F) : nf F = F := by
+  obtain ⟨hver, hct, hmt, hperm, hmat, hcap, hxh, ⟨a, ha, har⟩, ⟨p, hp, hpr⟩, ⟨t, ht, htr⟩,
+    hital, hbold, hreg, hscr, hws, hwn, hwe, hgsub⟩ := h
+  have ho := nfOutline_canonical F.outline hws hwn hwe
+  have hcap' := heightFallback_canonical F.capHeight F.outline F.outline.gidH hcap
+  have hxh' := heightFallback_canonical F.xHeight F.outline F.outline.gidX hxh
+  have hang : toInt32 F.italicAngle.round16 = a := by
+    rw [ha, round16_fix16]; exact toInt32_of_range a har
+  have hup : toInt16 F.underlinePosition.round = p := by
+    rw [hp, round_ofInt]; exact toInt16_of_range p hpr
+  have hut : toInt16 F.underlineThickness.round = t := by
+    rw [ht, round_ofInt]; exact toInt16_of_range t htr
+  unfold nf
+  simp only [ho, hcap', hxh', hang, hup, hut, hver, hct, hmt, ← hital]
+  rcases F with ⟨fam, wd, wt, reg, bold, ital, obl, serif, script, cpr, ver, ct, mt, dsc, smp, cpy, tm, lic, url,
+    perm, upem, fm, asc, des, gap, cap, xh, ia, up, ut,
+    ⟨kind, n, widths, heights, glyphs, eg, cm, hb, gh, gx, sl⟩, gdef, gsub, gpos⟩
+  simp only at *
+  generalize subfamily _ = sub at hital hbold ⊢
+  generalize boldWord sub = bw at hbold ⊢
+  subst ha hp ht
+  have hperm' : (if 1 ≤ perm ∧ perm ≤ 3 then perm else 0) = perm := by
+    split <;> omega
+  have hb1 : (bold && !reg || bw) = bold := by
+    cases bold <;> cases reg <;> cases bw <;> simp_all
+  have hr1 : (reg && !ital && !bold) = reg := by
+    cases reg <;> cases ital <;> cases bold <;> simp_all
+  have hs1 : (script && !serif) = script := by
+    cases script <;> cases serif <;> simp_all
+  rw [hperm', hb1, hr1, hs1]
+  cases gsub with
+  | some g =>
+    cases kind
+    · rw [hmat rfl]
+    · rfl
+  | none =>
+    rcases hgsub rfl with h | h
+    · simp only [h]
+      cases kind
+      · rw [hmat rfl]; rfl
+      · rfl
+    · subst h
+      cases kind
+      · rw [hmat rfl]; simp
+      · simp
+
 end SfntV.Font
